@@ -848,6 +848,12 @@ func (fr *Frame) assumeLockInv(st *State, li *LockInv, ref *Term) {
 }
 
 func (fr *Frame) checkLockInv(st *State, li *LockInv, ref *Term, n ast.Node) {
+	if fr.top.fc != nil && fr.top.fc.Options["constructing"] != "" {
+		// `option constructing`: the receiver is still being built and not yet shared; the lock invariant is what the
+		// function establishes on success (stated as its post-condition), not something its error exits owe anybody
+		fr.e.note("%s runs on an object under construction (option constructing): lock invariants are not required at its unlocks", shortKey(fr.top.fn.Key))
+		return
+	}
 	b := fr.lockBindings(li, ref)
 	if fr.top.fc != nil {
 		// `assume unlock: expr`: a listed assumption about the state in which the lock is released
